@@ -4,4 +4,4 @@ set -e
 cd /verif
 export GOFLAGS=-mod=mod GOPROXY=off GOSUMDB=off GOTOOLCHAIN=local
 VERIF_GOROOT=$(go1.26.8 env GOROOT) ./bin/instrument overlay /repo /verif build/overlay >/dev/null
-go1.26.8 test -c -vet=off -tags verif -overlay build/overlay/overlay.json -ldflags=-checklinkname=0 -o bin/worker.test ./sim
+go1.26.8 test -c -vet=off -tags verif -overlay build/overlay/overlay.json -ldflags=-checklinkname=0 -o ${VERIF_WORKER_BIN:-bin/worker.test} ./sim
